@@ -251,6 +251,46 @@ Theorem C15_repeat_exact_with_migrations : forall wa self admin gadmin ms g xs s
     (k <> 0 -> held w d - W * k = held w d mod W /\ held w d mod W < W).
 Proof. exact repeat_exact_x. Qed.
 
+(* ---- instantiation with attached coins ----
+   Coins attached to the instantiate message are the contract's balance afterwards (on
+   both paths: nothing is forwarded to the group), nobody else holds anything, and from
+   then on -- through deposits, group changes, admin changes, distributions, migrations,
+   accepted or refused -- the total over all accounts is what was attached plus what was
+   deposited: the contract never creates or loses coins. *)
+Theorem C15_funded_instantiation : forall self admin gadmin g cs d,
+  let w := init_world_funded self admin gadmin g cs in
+  bal (w_bank w) self d = coins_of cs d /\ supply (w_bank w) d = coins_of cs d /\
+  w_members w = g /\ w_admin w = admin.
+Proof. exact funded_init. Qed.
+
+Theorem C15_conservation_from_instantiate : forall wa self admin gadmin g cs xs d,
+  supply (w_bank (xrun wa (init_world_funded self admin gadmin g cs) xs)) d = coins_of cs d + xdeposited xs d.
+Proof. exact conservation_from_instantiate. Qed.
+
+Theorem C15_repeat_exact_from_funded_instantiation : forall wa self admin gadmin ms g cs xs s dl w',
+  group_instantiate ms = Ok g ->
+  let w := xrun wa (init_world_funded self admin gadmin g cs) xs in
+  step w (Distribute s dl) = Ok w' ->
+  (forall d, count d (requested w dl) <= 1) ->
+  let W := total_weight (w_members w) in
+  W <> 0 /\ (1 <= length (w_members w) <= 25)%nat /\ can_distribute w s = true /\
+  forall d,
+    let k := if existsb (N.eqb d) (requested w dl) then held w d / W else 0 in
+    (forall m, In m (w_members w) -> m_addr m <> w_self w ->
+       bal (w_bank w') (m_addr m) d = bal (w_bank w) (m_addr m) d + m_weight m * k) /\
+    (forall a, is_member a (w_members w) = false -> a <> w_self w ->
+       bal (w_bank w') a d = bal (w_bank w) a d) /\
+    bal (w_bank w') (w_self w) d + W * k = held w d + weight_of (w_members w) (w_self w) * k /\
+    W * k <= held w d /\
+    (k <> 0 -> held w d - W * k = held w d mod W /\ held w d mod W < W).
+Proof. exact repeat_exact_funded. Qed.
+
+Example C15_ex_funded_then_distribute :
+  exists w', step (init_world_funded 5 (Some 1) (Some 2) [mkMember 101 3; mkMember 102 1] [mkCoin 3 479; mkCoin 1 777])
+                  (Distribute 1 None) = Ok w' /\
+             bal (w_bank w') 101 3 = 357 /\ bal (w_bank w') 102 1 = 194 /\ bal (w_bank w') 5 3 = 3 /\ bal (w_bank w') 5 1 = 1.
+Proof. eexists. split; [vm_compute; reflexivity|]. repeat split; vm_compute; reflexivity. Qed.
+
 Example C15_ex_migrate_then_distribute :
   exists w', step (xrun 1 ex_world [XMigrate 1 "crates.io:sg-splits" "3.9.0"; XMigrate 3 "crates.io:sg-splits" "3.9.0";
                                     XMigrate 1 "crates.io:sg-minter" "3.9.0"; XMigrate 1 "crates.io:sg-splits" "3.17.0"]%string)
@@ -266,6 +306,9 @@ Proof. repeat split; vm_compute; reflexivity. Qed.
 Print Assumptions C15_entitled.
 Print Assumptions C15_migrate_changes_nothing.
 Print Assumptions C15_migrate_ok_iff.
+Print Assumptions C15_funded_instantiation.
+Print Assumptions C15_conservation_from_instantiate.
+Print Assumptions C15_repeat_exact_from_funded_instantiation.
 Print Assumptions C15_repeat_exact_with_migrations.
 Print Assumptions C15_messages_exact.
 Print Assumptions C15_paid_sums.
